@@ -13,7 +13,18 @@ done
 python3 - "$V" <<'PY' || rc=1
 import sys
 sys.path.insert(0, sys.argv[1] + "/check")
-import check
+import check, props
+# regenerate every translator-written coq/Gen/*.v from /repo before the Coq build
+seen = set()
+for pid, spec in sorted(props.PROPS.items()):
+    for tr, ok, msg in check.run_translators(spec):
+        k = tr["out"]
+        if k in seen:
+            continue
+        seen.add(k)
+        if not ok:
+            print("setup: translator for %s failed: %s" % (k, msg[-500:]))
+            sys.exit(1)
 check.coq_project()
 PY
 (cd coq && timeout 3000 make -j16 -k >"$V/build/coq-make.log" 2>&1) || { echo "setup: coq make reported errors (see build/coq-make.log)"; tail -30 "$V/build/coq-make.log"; rc=1; }
